@@ -153,6 +153,19 @@ CLAIMED.update({
         note=STORENOTE, technique="Lean 4 theorems (fold invariant over apply steps) + virtual-clock differential runs", design="8/C19"),
 })
 
+CLAIMED.update({
+    "C16": dict(
+        text=("Theorems. Gate (Store.lookup): with lookups off an unknown name is refused with no request and known names are served; with lookups on a fetched name is installed "
+              "undeclared, stamped, cached and pinned by its handle; a failed fetch installs nothing. Concurrency (discrete-event model Lookup.run over a virtual clock, any number of "
+              "callers, any service behaviour, oracle-free): invariant for every reachable state - a caller that has returned did so no later than the end of its own context and "
+              "reports a context error only if its own context had ended; corollary bounded_no_deadline: a caller without a deadline returns within 300 000 ms of its start; a request "
+              "is sent only when no flight is running; all waiters of a flight get its result. The pre-repair semantics (limit per flight, blocking Do) is kept as a mode and proved by "
+              "evaluation to retry forever (d6_original_never_returns). Facts: the limit is 5 min and sits outside the single-flight function. Tie: LookupSecret from 1-5 goroutines "
+              "under synctest with scripted latencies/hangs/cancellations, return times and request log compared with the model where flight ownership is determined; monitors on all cases."),
+        note=STORENOTE, technique="Lean 4 theorems (invariant over a discrete-event simulation, min-of-events lemma) + kernel evaluation of the original mode + virtual-time concurrent runs",
+        design="8/C16"),
+})
+
 NOT_YET = {}
 
 def manifest():
